@@ -163,16 +163,23 @@ func runCheck(lockMode bool, repo, verif, prop, tier, only, dump string, useCach
 				}
 			}
 		}
-		if !sel {
+		if !sel || c.Extern {
 			continue
 		}
 		if only != "" && !strings.Contains(c.FuncName, only) {
 			continue
 		}
 		fn := eng.findFunc(c.Pkg, c.FuncName)
+		if fn == nil && c.Trusted != "" && !strings.Contains(c.FuncName, ".") {
+			continue // contract on a named function type (callback): assumed
+		}
 		if fn == nil {
 			if strings.Contains(c.FuncName, ".") && !strings.HasPrefix(c.FuncName, "(") && isInterfaceContract(eng, c) {
-				continue // contract on an interface method: nothing to verify here
+				// contract on an interface method: every implementation in the repo must refine it
+				for _, rr := range eng.refinements(c) {
+					results = append(results, rr)
+				}
+				continue
 			}
 			missing = append(missing, shortPkg(c.Pkg)+"."+c.FuncName)
 			continue
